@@ -11,6 +11,8 @@ import (
 	"net/textproto"
 )
 
+var verifQuietLog = log.New(io.Discard, "", 0)
+
 // Native side: a REAL httputil.ReverseProxy over the scripted backend.
 func verifProxyFor(name string) *httputil.ReverseProxy {
 	return &httputil.ReverseProxy{
@@ -47,7 +49,12 @@ func (b *verifChunkedBody) Close() error { return nil }
 
 func (t *verifFakeRT) RoundTrip(req *http.Request) (*http.Response, error) {
 	verifHit(t.name)
-	kind, status := verifNextOutcome()
+	if req.Header.Get("Upgrade") != "" {
+		// a tunnel lives until one side closes it: note whether a timer is attached to the request that reaches the proxy
+		_, has := req.Context().Deadline()
+		verifSetUpgradeDeadline(has)
+	}
+	kind, status := verifNextOutcome(req)
 	if kind != verifOutRefused {
 		for n := verifInterims(); n > 0; n-- {
 			// deliver the interim response the way a real Transport does: through the client trace
